@@ -39,8 +39,32 @@ func main() {
 			return
 		}
 		rn := formula.NewRunner()
-		rn.SetThis(map[string]interface{}{"a": 1, "s": "txt", "arr": []interface{}{1, 2}, "m": map[string]interface{}{"k": 1},
-			"h": func(x string) (interface{}, error) { return len(x), nil }, "g": func(x interface{}) (interface{}, error) { return 1, nil }})
+		pd := map[string]interface{}{"a": 1, "s": "txt", "arr": []interface{}{1, 2}, "m": map[string]interface{}{"k": 1},
+			"h": func(x string) (interface{}, error) { return len(x), nil }, "g": func(x interface{}) (interface{}, error) { return 1, nil }}
+		// caller data that refers back to itself through Go structs and pointers
+		type envT struct {
+			Name string
+			Vars map[string]interface{}
+		}
+		type nodeT struct {
+			Name string
+			Next *nodeT
+			Self interface{}
+		}
+		pd["env"] = envT{Name: "e", Vars: pd}
+		pd["penv"] = &envT{Name: "pe", Vars: pd}
+		ring := &nodeT{Name: "ring"}
+		ring.Next = ring
+		pd["ring"] = ring
+		pd["ringv"] = *ring
+		two := &nodeT{Name: "one", Next: &nodeT{Name: "two"}}
+		two.Next.Next = two
+		pd["two"] = two
+		selfish := &nodeT{Name: "selfish"}
+		selfish.Self = selfish
+		pd["selfish"] = selfish
+		pd["envs"] = []interface{}{envT{Name: "in-array", Vars: pd}}
+		rn.SetThis(pd)
 		var v interface{}
 		pan, _ := protect(func() { v, err = rn.Resolve(context.Background(), src.Expression) })
 		switch {
